@@ -60,7 +60,9 @@ IsSigned(t) == IF t = "char" THEN CharSigned ELSE t \in {"schar", "short", "int"
 Rank == [bool |-> 1, char |-> 2, schar |-> 2, uchar |-> 2, short |-> 3, ushort |-> 3, int |-> 4, uint |-> 4,
          long |-> 5, ulong |-> 5, llong |-> 6, ullong |-> 6]
 UnsignedOf == [int |-> "uint", long |-> "ulong", llong |-> "ullong"]
-Mant(t) == IF Real THEN (IF t = "float" THEN 24 ELSE 53) ELSE (IF t = "float" THEN 3 ELSE 5)
+(* significant bits.  Scaled: 3 and 8, so that (as with 24 and 53) p_double >= 2 * p_float + 2: rounding a sum, difference, *)
+(* product or quotient of floats to double first and to float afterwards is then the same as rounding it once              *)
+Mant(t) == IF Real THEN (IF t = "float" THEN 24 ELSE 53) ELSE (IF t = "float" THEN 3 ELSE 8)
 
 (* ====================================================================== *)
 (* Z: the integers of the declarative side                                  *)
@@ -142,6 +144,31 @@ DRepr(d, t) ==
   \/ /\ ZBitLen(d.m) <= Mant(t)
      /\ Real => IF t = "float" THEN DTop(d) <= 128 /\ d.e >= -149 ELSE DTop(d) <= 1024 /\ d.e >= -1074
 
+(* IEEE 754 round-to-nearest, ties-to-even of an exact dyadic d to the format of t (binary32 / binary64): keep p = Mant(t)   *)
+(* significant bits: |m| = q * 2^k + r with k = bitlen(m) - p; r > 2^(k-1) rounds the magnitude up, r < 2^(k-1) down, a tie   *)
+(* goes to the even q; q + 1 = 2^p renormalises (DNorm).  Outside the model (Inexact): a magnitude below the smallest normal  *)
+(* number that needs rounding (subnormal range) and a rounded magnitude above the largest finite value.                      *)
+ZOdd(a) == IF Real THEN a[1] % 2 = 1 ELSE a % 2 = 1            \* a >= 0
+MinTop(t) == IF t = "float" THEN -125 ELSE -1021              \* DTop of the smallest normal number
+MaxTop(t) == IF t = "float" THEN 128 ELSE 1024
+DRound(d, t) ==
+  IF ~d.x THEN Inexact
+  ELSE IF DIsZero(d) THEN d
+  ELSE LET n == ZBitLen(d.m)
+           p == Mant(t)
+       IN IF n <= p THEN (IF DRepr(d, t) THEN d ELSE Inexact)
+          ELSE LET k  == n - p
+                   a  == ZAbs(d.m)
+                   q  == ZShrF(a, k)
+                   r  == ZSub(a, ZShl(q, k))
+                   h  == ZPow2(k - 1)
+                   up == ZLt(h, r) \/ (r = h /\ ZOdd(q))
+                   q2 == IF up THEN ZAdd(q, Z1) ELSE q
+                   res == DNorm(IF DIsNeg(d) THEN ZNeg(q2) ELSE q2, d.e + k)
+               IN IF Real /\ (DTop(d) < MinTop(t) \/ DTop(res) > MaxTop(t)) THEN Inexact ELSE res
+(* what eval.c computes: the host's double operation, then cast()'s `(float)` when the type is float *)
+ImplRound(d, t) == LET r1 == DRound(d, "double") IN IF t = "float" THEN DRound(r1, "float") ELSE r1
+
 (* ====================================================================== *)
 (* Declarative side: C11 typing and evaluation                              *)
 (* ====================================================================== *)
@@ -179,14 +206,17 @@ Val(st, t, v) == [st |-> st, t |-> t, v |-> v]
 OkV(t, v) == Val("ok", t, v)
 NoV(st, t) == Val(st, t, 0)        \* st in {"ub", "inexact"}: no value is prescribed
 B01(b) == IF b THEN Z1 ELSE Z0
+(* a floating result of type t whose exact value is d: rounded to the format (6.3.1.4p2, 6.3.1.5, 6.4.4.2p3 with the    *)
+(* IEC 60559 default rounding of Annex F); "inexact" = outside the model (not dyadic, subnormal range, overflow)        *)
+FloatResult(t, d) == LET r == DRound(d, t) IN IF r.x THEN OkV(t, r) ELSE NoV("inexact", t)
 
 (* 6.3.1.2-6.3.1.5 conversion of a value x of type f to type t *)
 Conv(x, f, t) ==
   IF t = "bool" THEN OkV(t, B01(IF IsFloat(f) THEN ~DIsZero(x) ELSE ~ZIsZero(x)))
   ELSE IF IsInt(f) /\ IsInt(t) THEN OkV(t, ZWrapT(x, Width(t), IsSigned(t)))   \* unsigned: modulo; signed: implementation-defined wrap
-  ELSE IF IsInt(f) THEN (LET d == DOfZ(x) IN IF DRepr(d, t) THEN OkV(t, d) ELSE NoV("inexact", t))
+  ELSE IF IsInt(f) THEN FloatResult(t, DOfZ(x))
   ELSE IF IsInt(t) THEN (LET tr == DTrunc(x) IN IF tr.big \/ ~InRange(tr.z, t) THEN NoV("ub", t) ELSE OkV(t, tr.z))
-  ELSE IF DRepr(x, t) THEN OkV(t, x) ELSE NoV("inexact", t)
+  ELSE FloatResult(t, x)
 
 IsZeroV(a) == IF IsFloat(a.t) THEN DIsZero(a.v) ELSE ZIsZero(a.v)
 ArithOps == {"*", "/", "%", "+", "-"}
@@ -202,7 +232,6 @@ IntOnlyOps == {"%"} \cup BitOps \cup ShiftOps
 IntResult(t, z) ==
   IF IsSigned(t) THEN (IF InRange(z, t) THEN OkV(t, z) ELSE NoV("ub", t))     \* 6.5p5
   ELSE OkV(t, ZWrapT(z, Width(t), FALSE))                                      \* 6.2.5p9
-FloatResult(t, d) == IF d.x /\ DRepr(d, t) THEN OkV(t, d) ELSE NoV("inexact", t)
 
 ArithValue(op, t, a, b) ==      \* a, b already converted to the common type t
   IF IsFloat(t)
@@ -245,20 +274,38 @@ NumType(b, suf, v) ==
       fit == {i \in 1..Len(c) : InRange(v, c[i])}
   IN IF fit = {} THEN "none" ELSE c[CHOOSE i \in fit : \A j \in fit : i <= j]
 
+(* An operator chain written WITHOUT parentheses: x1 op1 x2 op2 ... xn.  C11 6.5.5-6.5.14 give one precedence level per   *)
+(* production, all left-associative: the root of the grammar tree is the RIGHTMOST operator of the LOWEST level.           *)
+Lvl(op) == CASE op \in {"*", "/", "%"} -> 10 [] op \in {"+", "-"} -> 9 [] op \in ShiftOps -> 8
+             [] op \in {"<", ">", "<=", ">="} -> 7 [] op \in {"==", "!="} -> 6 [] op = "&" -> 5 [] op = "^" -> 4
+             [] op = "|" -> 3 [] op = "&&" -> 2 [] op = "||" -> 1
+RECURSIVE GrammarTree(_, _)
+GrammarTree(xs, ops) ==
+  IF Len(ops) = 0 THEN xs[1]
+  ELSE LET lo == CHOOSE v \in {Lvl(ops[j]) : j \in 1..Len(ops)} : \A j \in 1..Len(ops) : v <= Lvl(ops[j])
+           i  == CHOOSE j \in 1..Len(ops) : Lvl(ops[j]) = lo /\ \A j2 \in 1..Len(ops) : Lvl(ops[j2]) = lo => j2 <= j
+       IN [k |-> "bin", op |-> ops[i], l |-> GrammarTree(SubSeq(xs, 1, i), SubSeq(ops, 1, i - 1)),
+           r |-> GrammarTree(SubSeq(xs, i + 1, Len(xs)), SubSeq(ops, i + 1, Len(ops)))]
+EChain(xs, ops) == [k |-> "chain", xs |-> xs, ops |-> ops]
+(* [k "ucond"]: `c ? a : b` written without parentheses, c a chain or primary, b a chain or another ucond (6.5.15) *)
+EUCond(c, a, b) == [k |-> "ucond", c |-> c, a |-> a, b |-> b]
+
 RECURSIVE TypeOf(_)
 TypeOf(e) ==
-  CASE e.k \in {"lit", "leaf"} -> e.t
+  CASE e.k \in {"lit", "leaf", "flit"} -> e.t
     [] e.k = "num" -> (LET t == NumType(e.b, e.suf, e.v) IN IF t = "none" THEN "int" ELSE t)
     [] e.k = "cast" -> e.t
     [] e.k = "un" -> (IF e.op = "!" THEN "int" ELSE Promote(TypeOf(e.a)))
     [] e.k = "bin" -> (IF e.op \in RelOps \cup LogOps THEN "int"
                        ELSE IF e.op \in ShiftOps THEN Promote(TypeOf(e.l))
                        ELSE UAC(TypeOf(e.l), TypeOf(e.r)))
-    [] e.k = "cond" -> UAC(TypeOf(e.a), TypeOf(e.b))        \* 6.5.15p5
+    [] e.k \in {"cond", "ucond"} -> UAC(TypeOf(e.a), TypeOf(e.b))        \* 6.5.15p5
+    [] e.k = "chain" -> TypeOf(GrammarTree(e.xs, e.ops))
 
 RECURSIVE ConstEval(_)
 ConstEval(e) ==
   CASE e.k \in {"lit", "leaf"} -> OkV(e.t, e.v)
+    [] e.k = "flit" -> FloatResult(e.t, e.v)       \* floating constant whose exact (dyadic) value need not be representable
     [] e.k = "num" -> (LET t == NumType(e.b, e.suf, e.v) IN IF t = "none" THEN NoV("ub", "int") ELSE OkV(t, e.v))
     [] e.k = "cast" ->
          (LET a == ConstEval(e.a) IN IF a.st # "ok" THEN NoV(a.st, e.t) ELSE Conv(a.v, a.t, e.t))
@@ -291,7 +338,8 @@ ConstEval(e) ==
                      ELSE IF cb.st # "ok" THEN NoV(cb.st, t)
                      ELSE IF e.op \in RelOps THEN OkV("int", RelValue(e.op, ct, ca.v, cb.v))
                      ELSE ArithValue(e.op, ct, ca.v, cb.v))
-    [] e.k = "cond" ->                          \* 6.5.15: only the selected operand is evaluated
+    [] e.k = "chain" -> ConstEval(GrammarTree(e.xs, e.ops))
+    [] e.k \in {"cond", "ucond"} ->             \* 6.5.15: only the selected operand is evaluated
          (LET c == ConstEval(e.c)
               t == TypeOf(e)
           IN IF c.st # "ok" THEN NoV(c.st, t)
@@ -358,7 +406,8 @@ FoldBinary(op, t, l, r) ==
             ELSE IF op = "/" /\ DIsZero(r.f) THEN Bad("unspec", {})
             ELSE LET d == CASE op = "+" -> DAdd(l.f, r.f) [] op = "-" -> DSub(l.f, r.f)
                             [] op = "*" -> DMul(l.f, r.f) [] op = "/" -> DDiv(l.f, r.f)
-                 IN IF d.x /\ DRepr(d, "double") /\ DRepr(d, t) THEN R("ok", KF(t, d), {}) ELSE Bad("unspec", {})
+                     rd == ImplRound(d, t)
+                 IN IF rd.x THEN R("ok", KF(t, rd), {}) ELSE Bad("unspec", {})
   ELSE IF IsFloat(r.t) \/ IsFloat(t) THEN Bad("unspec", {})
   ELSE
   LET sg == IsSigned(l.t)        \* op |= S
@@ -395,7 +444,8 @@ FoldNeg(t, l) ==
 FoldCast(t, l) ==
   IF IsInt(l.t) /\ IsFloat(t)
   THEN LET d == DOfZ(IF IsSigned(l.t) THEN CToZS(l.u) ELSE CToZU(l.u))
-       IN IF DRepr(d, "double") /\ DRepr(d, t) THEN R("ok", KF(t, d), {}) ELSE Bad("unspec", {})
+           rd == DRound(d, t)            \* `t->size == 4 ? (float)i : (double)i`: one rounding, to the target format
+       IN IF rd.x THEN R("ok", KF(t, rd), {}) ELSE Bad("unspec", {})
   ELSE IF IsFloat(l.t) /\ IsInt(t)
   THEN LET tr == DTrunc(l.f)
            lim == ZPow2(IF IsSigned(t) THEN CB - 1 ELSE CB)
@@ -417,7 +467,7 @@ FoldCast(t, l) ==
           ELSE IF got.st = right.st /\ got.n = right.n THEN got
           ELSE [got EXCEPT !.dv = @ \cup {"BoolCastTruncates"}]
   ELSE IF IsFloat(l.t)         \* float -> float: cast() rounds to float when size == 4
-  THEN (IF DRepr(l.f, t) THEN R("ok", KF(t, l.f), {}) ELSE Bad("unspec", {}))
+  THEN (LET rd == DRound(l.f, t) IN IF rd.x THEN R("ok", KF(t, rd), {}) ELSE Bad("unspec", {}))
   ELSE                         \* integer -> integer
        IF t = "bool" /\ ~Dev_BoolCastTruncates THEN R("ok", KI(t, C01(~CIsZero(l.u))), {})
        ELSE LET u == CastInt(l.u, t)
@@ -545,6 +595,8 @@ LeafK(e) == IF IsFloat(e.t) THEN KF(e.t, e.v) ELSE KI(e.t, COfZ(e.v))
 RECURSIVE Build(_)
 Build(e) ==
   CASE e.k \in {"lit", "leaf"} -> R("ok", LeafK(e), {})
+    [] e.k = "flit" ->        \* primaryexpr(): strtof() for an f-suffixed constant, strtod() otherwise: correctly rounded to the type
+         (LET rd == DRound(e.v, e.t) IN IF rd.x THEN R("ok", KF(e.t, rd), {}) ELSE Bad("unspec", {}))
     [] e.k = "num" -> (LET t == ImplIntType(e.b, e.suf, COfZ(e.v))
                        IN IF t = "none" THEN Bad("error", {}) ELSE R("ok", KI(t, COfZ(e.v)), {}))
     [] e.k = "cast" -> (LET a == Build(e.a) IN IF a.st # "ok" THEN a ELSE R("ok", [k |-> "cast", t |-> e.t, a |-> a.n], a.dv))
@@ -568,7 +620,8 @@ Build(e) ==
                          THEN LET l == Cv(a.n, ImplPromote(a.n.t)) IN R("ok", NBin(e.op, l.t, l, Cv(b.n, ImplPromote(b.n.t))), dv)
                     ELSE LET ct == ImplCommon(a.n.t, b.n.t)
                          IN R("ok", NBin(e.op, IF e.op \in RelOps THEN "int" ELSE ct, Cv(a.n, ct), Cv(b.n, ct)), dv))
-    [] e.k = "cond" ->
+    [] e.k = "chain" -> Build(GrammarTree(e.xs, e.ops))      \* binaryexpr(): precedence climbing must build the grammar tree
+    [] e.k \in {"cond", "ucond"} ->
          (LET c == Build(e.c) IN
           IF c.st # "ok" THEN c
           ELSE LET a == Build(e.a) IN
@@ -679,6 +732,7 @@ Lit(t, v)      == [k |-> "lit", t |-> t, v |-> v]
 ECast(t, a)    == [k |-> "cast", t |-> t, a |-> a]
 EUn(op, a)     == [k |-> "un", op |-> op, a |-> a]
 EBin(op, l, r) == [k |-> "bin", op |-> op, l |-> l, r |-> r]
+FLit(t, v, sp) == [k |-> "flit", t |-> t, v |-> v, sp |-> sp]                   \* floating constant of exact value v, spelled sp
 ENum(b, suf, v) == [k |-> "num", b |-> b, suf |-> suf, v |-> v]                 \* integer constant: base, suffix, value
 ELeaf(t, v, src, ty) == [k |-> "leaf", t |-> t, v |-> v, src |-> src, ty |-> ty]  \* sizeof/_Alignof/offsetof/enum constant
 ECond(c, a, b) == [k |-> "cond", c |-> c, a |-> a, b |-> b]
